@@ -112,7 +112,10 @@ func (g *cfctx) body(depth int, inLoop bool) []Stmt {
 }
 
 // Cflow placements.
-var CflowPlacements = []string{"func", "main", "closure", "module", "main-returns"}
+// "func-in-loop" / "func-in-func-loop": the function literal holding the body is created and called inside a loop
+// of the enclosing scope (global-level resp. inside another function) that has its own continue and break, so the
+// body's loops and the enclosing loop coexist in the compiler.
+var CflowPlacements = []string{"func", "main", "closure", "module", "main-returns", "func-in-loop", "func-in-func-loop"}
 
 // CflowProgram is one generated element.
 type CflowProgram struct {
@@ -150,6 +153,21 @@ func Cflow(cfg CflowCfg) func(ch *Chooser) CflowProgram {
 				&Return{X: &ArrayLit{Elems: []Expr{I("r"), I("x")}}},
 			}}
 			p.Main = []Stmt{Def("mk", mk), Def("out", C(I("mk"), I("P"), I("Q")))}
+		case "func-in-loop", "func-in-func-loop":
+			fb := append([]Stmt{Def("x", N("0"))}, body...)
+			fb = append(fb, &Return{X: I("x")})
+			loop := &For{Init: Def("t", N("0")), Cond: B("<", I("t"), N("3")), Post: &IncDec{X: I("t"), Op: "++"}, Body: []Stmt{
+				Def("f", &FuncLit{Params: []string{"p", "q"}, Body: fb}),
+				Set(I("r"), B("+", I("r"), &ArrayLit{Elems: []Expr{C(I("f"), I("pp"), I("qq"))}})),
+				&If{Cond: B("==", I("t"), N("0")), Then: []Stmt{&Continue{}}},
+				&Break{},
+			}}
+			if pl == "func-in-loop" {
+				p.Main = []Stmt{Def("pp", I("P")), Def("qq", I("Q")), Def("r", &ArrayLit{}), loop, Def("out", I("r"))}
+			} else {
+				outer := &FuncLit{Params: []string{"pp", "qq"}, Body: []Stmt{Def("r", &ArrayLit{}), loop, &Return{X: I("r")}}}
+				p.Main = []Stmt{Def("h", outer), Def("out", C(I("h"), I("P"), I("Q")))}
+			}
 		case "module":
 			mb := append([]Stmt{Def("x", N("0")), Def("p", True()), Def("q", False())}, body...)
 			mb = append(mb, &Export{X: I("x")})
